@@ -25,6 +25,8 @@ import Imeta.Lemmas.ExifForward
 import Imeta.Lemmas.ExifFlat
 import Imeta.Lemmas.ExifNested
 import Imeta.Lemmas.ExifField2
+import Imeta.Lemmas.ExifField3
+import Imeta.Lemmas.ExifField4
 namespace Imeta.Exif
 open Imeta
 
@@ -541,6 +543,182 @@ theorem C03_lensModel_end_to_end (tb : Tables) (F : Bytes) (buffered : Bool) (h 
     (hemb : a.isEmbedded = false) (hasc : isASCII a = true) (hpost : ∀ t ∈ post, ¬(t.ifd = exifIFD ∧ t.id = 0xa434)) :
     r'.ex.lensModel = trimNUL (slice F a) :=
   lensModel_exact (decodeTiff_nested tb F buffered h cnt r' e W hsmall w hroot hrootW hres).2.1 pre post a hsplit h0 hid hemb hasc hpost
+
+/-- **A field, end to end: Copyright (IFD0, 0x8298)** — the same statement as for Software / LensModel -/
+theorem C03_copyright_end_to_end (tb : Tables) (F : Bytes) (buffered : Bool) (h : Hdr) (cnt : Nat) (r' : R) (e : Option ErrKind)
+    (W : Tag → Prop) (hsmall : F.length < 2 ^ 32)
+    (w : World F (4 * 1024 * 1024) (if buffered then bufioSize else scratchSize) W)
+    (hroot : DirOK F { off := 0, base := 0, order := h.order, typ := h.firstIfdType, idx := 0 } h.firstIfd cnt (4 * 1024 * 1024)
+      (if buffered then bufioSize else scratchSize) (extent F))
+    (hrootW : ∀ x, IsEntry F { off := 0, base := 0, order := h.order, typ := h.firstIfdType, idx := 0 } h.firstIfd cnt x ∨
+      IsStubEntry F { off := 0, base := 0, order := h.order, typ := h.firstIfdType, idx := 0 } h.firstIfd cnt x → W x)
+    (hres : decodeTiff tb F buffered h = .ok (r', e))
+    (pre post : List Tag) (a : Tag) (hsplit : r'.parsed = pre ++ a :: post) (h0 : a.ifd = ifd0) (hid : a.id = 0x8298)
+    (hemb : a.isEmbedded = false) (hasc : isASCII a = true) (hpost : ∀ t ∈ post, ¬(t.ifd = ifd0 ∧ t.id = 0x8298)) :
+    r'.ex.copyright = trimNUL (slice F a) :=
+  copyright_exact (decodeTiff_nested tb F buffered h cnt r' e W hsmall w hroot hrootW hres).2.1 pre post a hsplit h0 hid hemb hasc hpost
+
+/-- **A field, end to end: ImageDescription (IFD0, 0x010e)** — the same statement as for Software / LensModel -/
+theorem C03_description_end_to_end (tb : Tables) (F : Bytes) (buffered : Bool) (h : Hdr) (cnt : Nat) (r' : R) (e : Option ErrKind)
+    (W : Tag → Prop) (hsmall : F.length < 2 ^ 32)
+    (w : World F (4 * 1024 * 1024) (if buffered then bufioSize else scratchSize) W)
+    (hroot : DirOK F { off := 0, base := 0, order := h.order, typ := h.firstIfdType, idx := 0 } h.firstIfd cnt (4 * 1024 * 1024)
+      (if buffered then bufioSize else scratchSize) (extent F))
+    (hrootW : ∀ x, IsEntry F { off := 0, base := 0, order := h.order, typ := h.firstIfdType, idx := 0 } h.firstIfd cnt x ∨
+      IsStubEntry F { off := 0, base := 0, order := h.order, typ := h.firstIfdType, idx := 0 } h.firstIfd cnt x → W x)
+    (hres : decodeTiff tb F buffered h = .ok (r', e))
+    (pre post : List Tag) (a : Tag) (hsplit : r'.parsed = pre ++ a :: post) (h0 : a.ifd = ifd0) (hid : a.id = 0x010e)
+    (hemb : a.isEmbedded = false) (hasc : isASCII a = true) (hpost : ∀ t ∈ post, ¬(t.ifd = ifd0 ∧ t.id = 0x010e)) :
+    r'.ex.description = trimNUL (slice F a) :=
+  description_exact (decodeTiff_nested tb F buffered h cnt r' e W hsmall w hroot hrootW hres).2.1 pre post a hsplit h0 hid hemb hasc hpost
+
+/-- **A field, end to end: LensMake (ExifIFD, 0xa433)** — the same statement as for Software / LensModel -/
+theorem C03_lensMake_end_to_end (tb : Tables) (F : Bytes) (buffered : Bool) (h : Hdr) (cnt : Nat) (r' : R) (e : Option ErrKind)
+    (W : Tag → Prop) (hsmall : F.length < 2 ^ 32)
+    (w : World F (4 * 1024 * 1024) (if buffered then bufioSize else scratchSize) W)
+    (hroot : DirOK F { off := 0, base := 0, order := h.order, typ := h.firstIfdType, idx := 0 } h.firstIfd cnt (4 * 1024 * 1024)
+      (if buffered then bufioSize else scratchSize) (extent F))
+    (hrootW : ∀ x, IsEntry F { off := 0, base := 0, order := h.order, typ := h.firstIfdType, idx := 0 } h.firstIfd cnt x ∨
+      IsStubEntry F { off := 0, base := 0, order := h.order, typ := h.firstIfdType, idx := 0 } h.firstIfd cnt x → W x)
+    (hres : decodeTiff tb F buffered h = .ok (r', e))
+    (pre post : List Tag) (a : Tag) (hsplit : r'.parsed = pre ++ a :: post) (h0 : a.ifd = exifIFD) (hid : a.id = 0xa433)
+    (hemb : a.isEmbedded = false) (hasc : isASCII a = true) (hpost : ∀ t ∈ post, ¬(t.ifd = exifIFD ∧ t.id = 0xa433)) :
+    r'.ex.lensMake = trimNUL (slice F a) :=
+  lensMake_exact (decodeTiff_nested tb F buffered h cnt r' e W hsmall w hroot hrootW hres).2.1 pre post a hsplit h0 hid hemb hasc hpost
+
+/-- **A field, end to end: LensSerialNumber (ExifIFD, 0xa435)** — the same statement as for Software / LensModel -/
+theorem C03_lensSerial_end_to_end (tb : Tables) (F : Bytes) (buffered : Bool) (h : Hdr) (cnt : Nat) (r' : R) (e : Option ErrKind)
+    (W : Tag → Prop) (hsmall : F.length < 2 ^ 32)
+    (w : World F (4 * 1024 * 1024) (if buffered then bufioSize else scratchSize) W)
+    (hroot : DirOK F { off := 0, base := 0, order := h.order, typ := h.firstIfdType, idx := 0 } h.firstIfd cnt (4 * 1024 * 1024)
+      (if buffered then bufioSize else scratchSize) (extent F))
+    (hrootW : ∀ x, IsEntry F { off := 0, base := 0, order := h.order, typ := h.firstIfdType, idx := 0 } h.firstIfd cnt x ∨
+      IsStubEntry F { off := 0, base := 0, order := h.order, typ := h.firstIfdType, idx := 0 } h.firstIfd cnt x → W x)
+    (hres : decodeTiff tb F buffered h = .ok (r', e))
+    (pre post : List Tag) (a : Tag) (hsplit : r'.parsed = pre ++ a :: post) (h0 : a.ifd = exifIFD) (hid : a.id = 0xa435)
+    (hemb : a.isEmbedded = false) (hasc : isASCII a = true) (hpost : ∀ t ∈ post, ¬(t.ifd = exifIFD ∧ t.id = 0xa435)) :
+    r'.ex.lensSerial = trimNUL (slice F a) :=
+  lensSerial_exact (decodeTiff_nested tb F buffered h cnt r' e W hsmall w hroot hrootW hres).2.1 pre post a hsplit h0 hid hemb hasc hpost
+
+/-- **A numeric field, end to end: Orientation (IFD0, 0x0112)** — the record holds what `parseUint16` makes of the last such entry (its count, type and
+4-byte value slot, i.e. bytes of the directory in F), whatever else the file contains -/
+theorem C03_orientation_end_to_end (tb : Tables) (F : Bytes) (buffered : Bool) (h : Hdr) (cnt : Nat) (r' : R) (e : Option ErrKind)
+    (W : Tag → Prop) (hsmall : F.length < 2 ^ 32)
+    (w : World F (4 * 1024 * 1024) (if buffered then bufioSize else scratchSize) W)
+    (hroot : DirOK F { off := 0, base := 0, order := h.order, typ := h.firstIfdType, idx := 0 } h.firstIfd cnt (4 * 1024 * 1024)
+      (if buffered then bufioSize else scratchSize) (extent F))
+    (hrootW : ∀ x, IsEntry F { off := 0, base := 0, order := h.order, typ := h.firstIfdType, idx := 0 } h.firstIfd cnt x ∨
+      IsStubEntry F { off := 0, base := 0, order := h.order, typ := h.firstIfdType, idx := 0 } h.firstIfd cnt x → W x)
+    (hres : decodeTiff tb F buffered h = .ok (r', e))
+    (pre post : List Tag) (a : Tag) (v : Nat) (hsplit : r'.parsed = pre ++ a :: post) (h0 : a.ifd = ifd0) (hid : a.id = 0x0112)
+    (hv : parseUint16 a = .ok v) (hpost : ∀ t ∈ post, ¬(t.ifd = ifd0 ∧ t.id = 0x0112)) :
+    r'.ex.orientation = v :=
+  orientation_exact (decodeTiff_nested tb F buffered h cnt r' e W hsmall w hroot hrootW hres).2.1 pre post a v hsplit h0 hid hv hpost
+
+/-- **A numeric field, end to end: StripOffsets (IFD0, 0x0111)** — the record holds what `parseUint32` makes of the last such entry (its count, type and
+4-byte value slot, i.e. bytes of the directory in F), whatever else the file contains -/
+theorem C03_stripOffsets_end_to_end (tb : Tables) (F : Bytes) (buffered : Bool) (h : Hdr) (cnt : Nat) (r' : R) (e : Option ErrKind)
+    (W : Tag → Prop) (hsmall : F.length < 2 ^ 32)
+    (w : World F (4 * 1024 * 1024) (if buffered then bufioSize else scratchSize) W)
+    (hroot : DirOK F { off := 0, base := 0, order := h.order, typ := h.firstIfdType, idx := 0 } h.firstIfd cnt (4 * 1024 * 1024)
+      (if buffered then bufioSize else scratchSize) (extent F))
+    (hrootW : ∀ x, IsEntry F { off := 0, base := 0, order := h.order, typ := h.firstIfdType, idx := 0 } h.firstIfd cnt x ∨
+      IsStubEntry F { off := 0, base := 0, order := h.order, typ := h.firstIfdType, idx := 0 } h.firstIfd cnt x → W x)
+    (hres : decodeTiff tb F buffered h = .ok (r', e))
+    (pre post : List Tag) (a : Tag) (v : Nat) (hsplit : r'.parsed = pre ++ a :: post) (h0 : a.ifd = ifd0) (hid : a.id = 0x0111)
+    (hv : parseUint32 a = .ok v) (hpost : ∀ t ∈ post, ¬(t.ifd = ifd0 ∧ t.id = 0x0111)) :
+    r'.ex.stripOffsets = v :=
+  stripOffsets_exact (decodeTiff_nested tb F buffered h cnt r' e W hsmall w hroot hrootW hres).2.1 pre post a v hsplit h0 hid hv hpost
+
+/-- **A numeric field, end to end: StripByteCounts (IFD0, 0x0117)** — the record holds what `parseUint32` makes of the last such entry (its count, type and
+4-byte value slot, i.e. bytes of the directory in F), whatever else the file contains -/
+theorem C03_stripByteCounts_end_to_end (tb : Tables) (F : Bytes) (buffered : Bool) (h : Hdr) (cnt : Nat) (r' : R) (e : Option ErrKind)
+    (W : Tag → Prop) (hsmall : F.length < 2 ^ 32)
+    (w : World F (4 * 1024 * 1024) (if buffered then bufioSize else scratchSize) W)
+    (hroot : DirOK F { off := 0, base := 0, order := h.order, typ := h.firstIfdType, idx := 0 } h.firstIfd cnt (4 * 1024 * 1024)
+      (if buffered then bufioSize else scratchSize) (extent F))
+    (hrootW : ∀ x, IsEntry F { off := 0, base := 0, order := h.order, typ := h.firstIfdType, idx := 0 } h.firstIfd cnt x ∨
+      IsStubEntry F { off := 0, base := 0, order := h.order, typ := h.firstIfdType, idx := 0 } h.firstIfd cnt x → W x)
+    (hres : decodeTiff tb F buffered h = .ok (r', e))
+    (pre post : List Tag) (a : Tag) (v : Nat) (hsplit : r'.parsed = pre ++ a :: post) (h0 : a.ifd = ifd0) (hid : a.id = 0x0117)
+    (hv : parseUint32 a = .ok v) (hpost : ∀ t ∈ post, ¬(t.ifd = ifd0 ∧ t.id = 0x0117)) :
+    r'.ex.stripByteCounts = v :=
+  stripByteCounts_exact (decodeTiff_nested tb F buffered h cnt r' e W hsmall w hroot hrootW hres).2.1 pre post a v hsplit h0 hid hv hpost
+
+/-- **A numeric field, end to end: ExposureProgram (ExifIFD, 0x8822)** — the record holds what `parseUint16` makes of the last such entry (its count, type and
+4-byte value slot, i.e. bytes of the directory in F), whatever else the file contains -/
+theorem C03_exposureProgram_end_to_end (tb : Tables) (F : Bytes) (buffered : Bool) (h : Hdr) (cnt : Nat) (r' : R) (e : Option ErrKind)
+    (W : Tag → Prop) (hsmall : F.length < 2 ^ 32)
+    (w : World F (4 * 1024 * 1024) (if buffered then bufioSize else scratchSize) W)
+    (hroot : DirOK F { off := 0, base := 0, order := h.order, typ := h.firstIfdType, idx := 0 } h.firstIfd cnt (4 * 1024 * 1024)
+      (if buffered then bufioSize else scratchSize) (extent F))
+    (hrootW : ∀ x, IsEntry F { off := 0, base := 0, order := h.order, typ := h.firstIfdType, idx := 0 } h.firstIfd cnt x ∨
+      IsStubEntry F { off := 0, base := 0, order := h.order, typ := h.firstIfdType, idx := 0 } h.firstIfd cnt x → W x)
+    (hres : decodeTiff tb F buffered h = .ok (r', e))
+    (pre post : List Tag) (a : Tag) (v : Nat) (hsplit : r'.parsed = pre ++ a :: post) (h0 : a.ifd = exifIFD) (hid : a.id = 0x8822)
+    (hv : parseUint16 a = .ok v) (hpost : ∀ t ∈ post, ¬(t.ifd = exifIFD ∧ t.id = 0x8822)) :
+    r'.ex.exposureProgram = v :=
+  exposureProgram_exact (decodeTiff_nested tb F buffered h cnt r' e W hsmall w hroot hrootW hres).2.1 pre post a v hsplit h0 hid hv hpost
+
+/-- **A numeric field, end to end: ExposureMode (ExifIFD, 0xa402)** — the record holds what `parseUint16` makes of the last such entry (its count, type and
+4-byte value slot, i.e. bytes of the directory in F), whatever else the file contains -/
+theorem C03_exposureMode_end_to_end (tb : Tables) (F : Bytes) (buffered : Bool) (h : Hdr) (cnt : Nat) (r' : R) (e : Option ErrKind)
+    (W : Tag → Prop) (hsmall : F.length < 2 ^ 32)
+    (w : World F (4 * 1024 * 1024) (if buffered then bufioSize else scratchSize) W)
+    (hroot : DirOK F { off := 0, base := 0, order := h.order, typ := h.firstIfdType, idx := 0 } h.firstIfd cnt (4 * 1024 * 1024)
+      (if buffered then bufioSize else scratchSize) (extent F))
+    (hrootW : ∀ x, IsEntry F { off := 0, base := 0, order := h.order, typ := h.firstIfdType, idx := 0 } h.firstIfd cnt x ∨
+      IsStubEntry F { off := 0, base := 0, order := h.order, typ := h.firstIfdType, idx := 0 } h.firstIfd cnt x → W x)
+    (hres : decodeTiff tb F buffered h = .ok (r', e))
+    (pre post : List Tag) (a : Tag) (v : Nat) (hsplit : r'.parsed = pre ++ a :: post) (h0 : a.ifd = exifIFD) (hid : a.id = 0xa402)
+    (hv : parseUint16 a = .ok v) (hpost : ∀ t ∈ post, ¬(t.ifd = exifIFD ∧ t.id = 0xa402)) :
+    r'.ex.exposureMode = v :=
+  exposureMode_exact (decodeTiff_nested tb F buffered h cnt r' e W hsmall w hroot hrootW hres).2.1 pre post a v hsplit h0 hid hv hpost
+
+/-- **A numeric field, end to end: MeteringMode (ExifIFD, 0x9207)** — the record holds what `parseUint16` makes of the last such entry (its count, type and
+4-byte value slot, i.e. bytes of the directory in F), whatever else the file contains -/
+theorem C03_meteringMode_end_to_end (tb : Tables) (F : Bytes) (buffered : Bool) (h : Hdr) (cnt : Nat) (r' : R) (e : Option ErrKind)
+    (W : Tag → Prop) (hsmall : F.length < 2 ^ 32)
+    (w : World F (4 * 1024 * 1024) (if buffered then bufioSize else scratchSize) W)
+    (hroot : DirOK F { off := 0, base := 0, order := h.order, typ := h.firstIfdType, idx := 0 } h.firstIfd cnt (4 * 1024 * 1024)
+      (if buffered then bufioSize else scratchSize) (extent F))
+    (hrootW : ∀ x, IsEntry F { off := 0, base := 0, order := h.order, typ := h.firstIfdType, idx := 0 } h.firstIfd cnt x ∨
+      IsStubEntry F { off := 0, base := 0, order := h.order, typ := h.firstIfdType, idx := 0 } h.firstIfd cnt x → W x)
+    (hres : decodeTiff tb F buffered h = .ok (r', e))
+    (pre post : List Tag) (a : Tag) (v : Nat) (hsplit : r'.parsed = pre ++ a :: post) (h0 : a.ifd = exifIFD) (hid : a.id = 0x9207)
+    (hv : parseUint16 a = .ok v) (hpost : ∀ t ∈ post, ¬(t.ifd = exifIFD ∧ t.id = 0x9207)) :
+    r'.ex.meteringMode = v :=
+  meteringMode_exact (decodeTiff_nested tb F buffered h cnt r' e W hsmall w hroot hrootW hres).2.1 pre post a v hsplit h0 hid hv hpost
+
+/-- **A numeric field, end to end: ISOSpeedRatings (ExifIFD, 0x8827)** — the record holds what `parseUint32` makes of the last such entry (its count, type and
+4-byte value slot, i.e. bytes of the directory in F), whatever else the file contains -/
+theorem C03_isoSpeed_end_to_end (tb : Tables) (F : Bytes) (buffered : Bool) (h : Hdr) (cnt : Nat) (r' : R) (e : Option ErrKind)
+    (W : Tag → Prop) (hsmall : F.length < 2 ^ 32)
+    (w : World F (4 * 1024 * 1024) (if buffered then bufioSize else scratchSize) W)
+    (hroot : DirOK F { off := 0, base := 0, order := h.order, typ := h.firstIfdType, idx := 0 } h.firstIfd cnt (4 * 1024 * 1024)
+      (if buffered then bufioSize else scratchSize) (extent F))
+    (hrootW : ∀ x, IsEntry F { off := 0, base := 0, order := h.order, typ := h.firstIfdType, idx := 0 } h.firstIfd cnt x ∨
+      IsStubEntry F { off := 0, base := 0, order := h.order, typ := h.firstIfdType, idx := 0 } h.firstIfd cnt x → W x)
+    (hres : decodeTiff tb F buffered h = .ok (r', e))
+    (pre post : List Tag) (a : Tag) (v : Nat) (hsplit : r'.parsed = pre ++ a :: post) (h0 : a.ifd = exifIFD) (hid : a.id = 0x8827)
+    (hv : parseUint32 a = .ok v) (hpost : ∀ t ∈ post, ¬(t.ifd = exifIFD ∧ t.id = 0x8827)) :
+    r'.ex.isoSpeed = v :=
+  isoSpeed_exact (decodeTiff_nested tb F buffered h cnt r' e W hsmall w hroot hrootW hres).2.1 pre post a v hsplit h0 hid hv hpost
+
+/-- **A numeric field, end to end: Flash (ExifIFD, 0x9209)** — the record holds what `parseUint16` makes of the last such entry (its count, type and
+4-byte value slot, i.e. bytes of the directory in F), whatever else the file contains -/
+theorem C03_flash_end_to_end (tb : Tables) (F : Bytes) (buffered : Bool) (h : Hdr) (cnt : Nat) (r' : R) (e : Option ErrKind)
+    (W : Tag → Prop) (hsmall : F.length < 2 ^ 32)
+    (w : World F (4 * 1024 * 1024) (if buffered then bufioSize else scratchSize) W)
+    (hroot : DirOK F { off := 0, base := 0, order := h.order, typ := h.firstIfdType, idx := 0 } h.firstIfd cnt (4 * 1024 * 1024)
+      (if buffered then bufioSize else scratchSize) (extent F))
+    (hrootW : ∀ x, IsEntry F { off := 0, base := 0, order := h.order, typ := h.firstIfdType, idx := 0 } h.firstIfd cnt x ∨
+      IsStubEntry F { off := 0, base := 0, order := h.order, typ := h.firstIfdType, idx := 0 } h.firstIfd cnt x → W x)
+    (hres : decodeTiff tb F buffered h = .ok (r', e))
+    (pre post : List Tag) (a : Tag) (v : Nat) (hsplit : r'.parsed = pre ++ a :: post) (h0 : a.ifd = exifIFD) (hid : a.id = 0x9209)
+    (hv : parseUint16 a = .ok v) (hpost : ∀ t ∈ post, ¬(t.ifd = exifIFD ∧ t.id = 0x9209)) :
+    r'.ex.flash = v :=
+  flash_exact (decodeTiff_nested tb F buffered h cnt r' e W hsmall w hroot hrootW hres).2.1 pre post a v hsplit h0 hid hv hpost
 
 /-- on the sample file, through the theorem (not by running the model): LensModel is "RF 50mm" -/
 example (r' : R) (e : Option ErrKind)
